@@ -26,6 +26,12 @@ class MethodSignature(LeafExpr):
             )
         elif len(methodName) == 0:
             raise TealInputError("invalid input empty string to Method")
+        elif any(c in '"\\' or not c.isprintable() for c in methodName):
+            # the signature is emitted verbatim between double quotes on one TEAL line
+            raise TealInputError(
+                "invalid character in method signature {!r}: double quotes, backslashes and "
+                "non-printable characters are not allowed".format(methodName)
+            )
         self.methodName = methodName
 
     def __teal__(self, options: "CompileOptions"):
